@@ -84,11 +84,13 @@ def process(prop, m, checks):
     """verify + detect one seeded change and file it under /verif/seeded/<prop>-<m>/."""
     import shutil
 
-    src = f"/tmp/seed_{prop}/{m}"
-    tag = f"{prop}_{m}"
+    root = os.environ.get("SEED_ROOT", "/tmp/seed_")
+    wave = os.environ.get("SEED_WAVE", "")
+    src = f"{root}{prop}/{m}"
+    tag = f"{prop}_{wave}{m}"
     v = verify(src, tag)
     dres = detect(src, checks, tag) if v.get("patch_applies") else {}
-    dst = f"/verif/seeded/{prop}-{m}"
+    dst = f"/verif/seeded/{prop}-{wave}{m}"
     os.makedirs(dst, exist_ok=True)
     for f in ("patch.diff", "demo.py", "notes.md"):
         if os.path.exists(os.path.join(src, f)):
@@ -109,7 +111,7 @@ def process(prop, m, checks):
     }
     with open(os.path.join(dst, "meta.json"), "w") as f:
         json.dump(meta, f, indent=1)
-    print(f"{prop}-{m}: confirmed={v.get('confirmed')} suite_ok={v.get('suite_ok')} demo(with)={v.get('demo_with_patch_exit')} demo(without)={v.get('demo_without_patch_exit')} detected_by={meta['detected_by']} exits={ {c: r['exit'] for c, r in dres.items()} }")
+    print(f"{prop}-{wave}{m}: confirmed={v.get('confirmed')} suite_ok={v.get('suite_ok')} demo(with)={v.get('demo_with_patch_exit')} demo(without)={v.get('demo_without_patch_exit')} detected_by={meta['detected_by']} exits={ {c: r['exit'] for c, r in dres.items()} }")
 
 
 if __name__ == "__main__":
